@@ -82,17 +82,30 @@ def hpp_struct(ctx, L):
     L.check("'prophy::bool_t has_{0};\\n'.format(member.name)" in osrc, 'C08.optional-flag', 'gen_member|flag', f.site(opt[0]),
             'an optional is a 4-byte prophy::bool_t has_<name> flag before the value', osrc)
     gap = [n for n in ast.walk(opt[0]) if isinstance(n, ast.If) and n is not opt[0]]
-    gok = False
+    gok, bumped = False, False
+    helper_ok = False
+    if m.has_func('_get_value_alignment'):
+        h = ws(unparse(m.func('_get_value_alignment').node))
+        helper_ok = ("while getattr(node, 'definition', None): node = node.definition" in h and
+                     'if isinstance(node, (model.Struct, model.Union)): return node.alignment' in h and
+                     'if isinstance(node, model.Enum): return model.ENUM_SIZE' in h and
+                     'return model.BUILTIN_SIZES.get(node.type_name)' in h)
     for g in gap:
         t = nows(unparse(g.test))
         b = nows(unparse(g.body))
-        if t in ('member.alignment>model.DISC_SIZE', 'member.alignment>DISC_SIZE', 'member.alignment>4', 'member.alignment==8') \
-                and 'generate_padding(member.alignment-' in b:
+        if 'member.alignment' in t or 'member.alignment' in b:
+            bumped = True
+        if re.search(r'value_alignment>(model\.)?DISC_SIZE', t) and 'generate_padding(value_alignment-' in b and \
+                'value_alignment = _get_value_alignment(member)' in osrc and helper_ok:
             gok = True
+    L.check(not bumped, 'C08.gap-obligation', 'gen_member|optional-gap-source', f.site(opt[0]),
+            'the flag-to-value gap is derived from member.alignment, which the model bumps to the block alignment for the first member '
+            'of a block after a dynamic field: {u32 n; u8 x<@n>; u8* o; u64 b} would get a gap the wire format does not have; the gap '
+            'must come from the alignment of the member\'s own type', osrc)
     L.check(gok, 'C08.gap-obligation', 'gen_member|optional-flag-to-value', f.site(opt[0]),
             'the struct is packed, so the wire gap between the 4-byte optional flag and a value of alignment 8 must be emitted '
-            'as manual padding (alignment - DISC_SIZE bytes when the slot alignment exceeds DISC_SIZE): O{u8 a; u64* b} puts b '
-            '4 bytes after has_b instead of 8', osrc)
+            'as manual padding (value alignment - DISC_SIZE bytes when the value\'s own alignment exceeds DISC_SIZE): O{u8 a; u64* b} '
+            'puts b 4 bytes after has_b instead of 8', osrc)
     order_ok = osrc.rstrip().endswith('field = flag + field') or re.search(r"field = .*has_\{0\}.*\+ field$", osrc) is not None
     L.check(order_ok, 'C08.optional-flag', 'gen_member|flag-before-value', f.site(opt[0]), 'flag (and gap) precede the value', osrc)
     # member ladder: arrays `T name[size or 1]`, plain `T name`
